@@ -365,6 +365,12 @@ def save_score_midi(
         ppq = ppq * 2
 
     events = defaultdict(lambda: defaultdict(list))
+    # note offs and zero-duration notes (grace notes) are collected apart from
+    # the note ons: at equal times the note offs are written first, then the
+    # zero-duration notes, then the note ons, so that a note ending where
+    # another note of the same pitch and channel starts is not cut by it
+    note_offs = defaultdict(lambda: defaultdict(list))
+    zero_dur_notes = defaultdict(lambda: defaultdict(list))
     meta_events = defaultdict(lambda: defaultdict(list))
 
     event_keys = OrderedDict()
@@ -491,23 +497,26 @@ def save_score_midi(
             # key is a tuple (part_group, part, voice) that will be
             # converted into a (track, channel) pair.
             key = (pg, part, note.voice)
-            events[key][to_ppq(note.start.t)].append(
-                Message("note_on", note=note.midi_pitch, velocity=velocity)
-            )
-            events[key][to_ppq(note.start.t + note.duration_tied)].append(
-                Message("note_off", note=note.midi_pitch)
-            )
+            t_on = to_ppq(note.start.t)
+            t_off = to_ppq(note.start.t + note.duration_tied)
+            note_on = Message("note_on", note=note.midi_pitch, velocity=velocity)
+            note_off = Message("note_off", note=note.midi_pitch)
+            if t_on == t_off:
+                zero_dur_notes[key][t_on].extend((note_on, note_off))
+            else:
+                events[key][t_on].append(note_on)
+                note_offs[key][t_off].append(note_off)
             event_keys[key] = True
 
     tr_ch_map = map_to_track_channel(list(event_keys.keys()), part_voice_assign_mode)
 
     # replace original event keys (partgroup, part, voice) by (track, ch) keys:
-    for key in list(events.keys()):
-        evs_by_time = events[key]
-        del events[key]
-        tr, ch = tr_ch_map[key]
-        for t, evs in evs_by_time.items():
-            events[tr][t].extend((ev.copy(channel=ch) for ev in evs))
+    for evs_by_key in (note_offs, zero_dur_notes, dict(events)):
+        for key, evs_by_time in evs_by_key.items():
+            events.pop(key, None)
+            tr, ch = tr_ch_map[key]
+            for t, evs in evs_by_time.items():
+                events[tr][t].extend((ev.copy(channel=ch) for ev in evs))
 
     # figure out in which tracks to replicate the time/key signatures of each part
     part_track_map = partition(lambda x: x[0][1], tr_ch_map.items())
